@@ -295,6 +295,14 @@ func equalBytes(a, b []byte) bool { return bytes.Equal(a, b) }
 // CompactSize form boundaries: a tiny transaction in which ONE count or length that the digest algorithms
 // serialise as a CompactSize is 252 / 253 / 254 / 65534 / 65535 / 65536 / 65537.
 
+// oneIn is true for about one case in n.  rapid's integer generators favour a few values heavily (0, small
+// numbers, the bounds): IntRange(0, n-1) == 0 is far more frequent than 1/n, and a single hashed draw still
+// inherits the weight of its popular values.  Three draws are mixed and hashed.
+func oneIn(t *rapid.T, label string, n uint64) bool {
+	a, b, c := rapid.Uint64().Draw(t, label+"_a"), rapid.Uint64().Draw(t, label+"_b"), rapid.Uint64().Draw(t, label+"_c")
+	return binary.LittleEndian.Uint64(fill(a*0x9e3779b97f4a7c15^b*0xc2b2ae3d27d4eb4f^c, 8))%n == 0
+}
+
 var boundarySizes = []int{252, 253, 254, 65534, 65535, 65536, 65537}
 
 func tinyTx(seed uint64, nIn, nOut int) *wire.Tx {
